@@ -1,5 +1,8 @@
 import Capella.Lemmas.Query
 import Capella.Lemmas.QueryList
+import Capella.Lemmas.QueryTable
+import Capella.Gen.Hier
+import Capella.Gen.HierRels
 
 /-!
 # C10 — queries return exactly what a brute-force scan of the model would
@@ -8,7 +11,7 @@ Property theorems only; helper lemmas live in `Capella/Lemmas/Query.lean`, the m
 `Capella/Model/Query.lean`.
 -/
 namespace Capella.Props.C10
-open Capella.Query Capella.QList
+open Capella.Query Capella.QList Capella.QTable
 
 /-- Type search is sound and complete: with a type index that is consistent with the trees, `search`
 (any set of types, optional `below` anchor) returns exactly the nodes a full scan finds. -/
@@ -380,6 +383,132 @@ theorem map_lookup_spec (w : World) (mk : List Str) (key : Atom) (l c : List Nat
   · intro h
     match c, h with
     | _ :: _ :: _, _ => simp [mapFind, hc]
+
+
+/-! ## over the generated class hierarchy and relation table (`Gen/Hier.lean`, `Gen/HierRels.lean`) -/
+
+/-- For every back-reference accessor of every class (as the code declares them now): every
+registered type whose wrapper class is a target class *or a subclass of one* is among the types the
+accessor searches.  Kernel-checked row by row; a new class or accessor that breaks it fails the build. -/
+theorem backref_candidates_closed (b : BackRef) (hb : b ∈ Gen.Hier.backrefs) (hne : b.targets ≠ [])
+    (h : Handler) (hh : h ∈ Gen.Hier.handlers) (hi : isInst h b.targets = true) :
+    h.xt ∈ candidates Gen.Hier.handlers b :=
+  candidates_closed _ b (Gen.Hier.backrefs_ok b hb) hne h hh hi
+
+/-- … and it searches nothing else: a searched type is the one `build_xtype` gives for a target class
+(then whatever is registered under it is an instance) or the registered type of an instance. -/
+theorem backref_candidates_sound (b : BackRef) (hb : b ∈ Gen.Hier.backrefs) (x : Nat)
+    (hx : x ∈ candidates Gen.Hier.handlers b) :
+    (some x ∈ b.builts ∧ ∀ h ∈ Gen.Hier.handlers, h.xt = x → isInst h b.targets = true) ∨
+      ∃ h ∈ Gen.Hier.handlers, h.xt = x ∧ isInst h b.targets = true :=
+  candidates_sound _ b (Gen.Hier.backrefs_ok b hb) x hx
+
+/-- Class-level completeness of back-references: in any store with a consistent index, an element
+whose type is registered for (a subclass of) a target class of a generated back-reference `b` — or any
+typed element when `b` names no class — and that holds `y` in a named relation is in `b`'s value. -/
+theorem backref_complete_by_class (nodes : List Node) (idx : Index) (hc : IndexConsistent nodes idx)
+    (rels : Nat → List Rel) (tname : Nat → Str) (b : BackRef) (hb : b ∈ Gen.Hier.backrefs)
+    (attrs : List Str) (y c : Nat) (n : Node) (hn : nodes[c]? = some n) (hsem : n.sem = true)
+    (hxne : n.xtype ≠ []) (hph : n.placeholder = false)
+    (hinst : b.targets = [] ∨
+      ∃ h ∈ Gen.Hier.handlers, isInst h b.targets = true ∧ n.xtype = tname h.xt)
+    (hholds : holds nodes rels attrs y c = true) :
+    c ∈ backref nodes idx rels ((candidates Gen.Hier.handlers b).map tname) attrs y := by
+  refine (backref_spec nodes idx hc rels _ attrs y c).mpr ⟨(mem_scan nodes _ none c).mpr ?_, hholds⟩
+  refine ⟨n, hn, hsem, hxne, hph, ?_, rfl⟩
+  unfold typeOk
+  rcases hinst with h0 | ⟨h, hh, hi, hx⟩
+  · simp [candidates, h0]
+  · by_cases hne : b.targets = []
+    · simp [candidates, hne]
+    · have := backref_candidates_closed b hb hne h hh hi
+      rw [hx]
+      simp only [Bool.or_eq_true, List.contains_iff_mem]
+      exact Or.inr (List.mem_map_of_mem this)
+
+/-- No link-storing relation of any class keeps its links in an attribute called `href` — the one
+attribute the XPath of `find_references` skips.  (Kernel-checked: `rowOk` of every generated row.) -/
+theorem table_relations_nohref (c : ClassRels) (_hc : c ∈ Gen.HierRels.classes) (t : TRel)
+    (ht : t ∈ trelsOf Gen.HierRels.rows c) :
+    (∀ a, t.base.kind = .attr a → a ≠ hrefName) ∧ (∀ tag xt f, t.base.kind = .child tag xt f → f ≠ hrefName) := by
+  unfold trelsOf at ht
+  obtain ⟨p, _, hp⟩ := List.mem_filterMap.mp ht
+  exact toTRel_nohref Gen.HierRels.rows Gen.HierRels.rows_ok p t hp
+
+/-- `find_references` over the generated relation table — list-valued, single-valued (`no_list`),
+`PhysicalLinkEnds`, `Typecast`, `Index` views alike — equals the brute-force evaluation of every
+table relation of every non-visual element, as lists.  The only assumption left is the C05 fact that
+stored child links contain `#`. -/
+theorem findrefs_table_eq_brute (nodes : List Node) (trels : Nat → List TRel)
+    (hfrom : ∀ i, trels i = [] ∨ ∃ c ∈ Gen.HierRels.classes, trels i = trelsOf Gen.HierRels.rows c)
+    (hhash : ∀ i r tag xt follow, r ∈ basesOf trels i → r.kind = .child tag xt follow →
+      ∀ j ∈ childrenOf nodes i, ∀ l, aget (attrsAt nodes j) follow = some l → l ≠ [] → '#' ∈ l)
+    (y : Nat) : findRefsT nodes trels y = bruteRefsT nodes trels y := by
+  apply findRefsT_eq_bruteRefsT
+  refine ⟨hhash, ?_⟩
+  intro i r hr
+  obtain ⟨t, ht, hbase⟩ := List.mem_map.mp hr
+  subst hbase
+  rcases hfrom i with h0 | ⟨c, hc, hcr⟩
+  · rw [h0] at ht; cases ht
+  · rw [hcr] at ht; exact table_relations_nohref c hc t ht
+
+/-- Completeness for every view: whenever a table relation of a non-visual element evaluates to a
+value containing `y`, `find_references y` reports it — with the index for a list, with `None` for a
+single-valued relation whose value is `y`. -/
+theorem findrefs_table_complete (nodes : List Node) (trels : Nat → List TRel)
+    (hfrom : ∀ i, trels i = [] ∨ ∃ c ∈ Gen.HierRels.classes, trels i = trelsOf Gen.HierRels.rows c)
+    (hhash : ∀ i r tag xt follow, r ∈ basesOf trels i → r.kind = .child tag xt follow →
+      ∀ j ∈ childrenOf nodes i, ∀ l, aget (attrsAt nodes j) follow = some l → l ≠ [] → '#' ∈ l)
+    (i y : Nat) (hi : i < nodes.length) (hnv : nonVisual nodes i = true) (t : TRel) (ht : t ∈ trels i)
+    (ts : List Nat) (hts : viewTargets nodes i t = some ts) :
+    (t.view = .list → y ∈ ts → ∃ k, (i, t.base.name, some k) ∈ findRefsT nodes trels y) ∧
+    (t.view ≠ .list → ts = [y] → (i, t.base.name, none) ∈ findRefsT nodes trels y) := by
+  rw [findrefs_table_eq_brute nodes trels hfrom hhash]
+  have hmem : ∀ x, x ∈ refsAtT nodes trels y i → x ∈ bruteRefsT nodes trels y := by
+    intro x hx
+    unfold bruteRefsT bruteRefsTV
+    exact List.mem_flatMap.mpr ⟨i, List.mem_filter.mpr ⟨List.mem_range.mpr hi, hnv⟩, hx⟩
+  constructor
+  · intro hv hy
+    refine ⟨ts.idxOf y, hmem _ ?_⟩
+    unfold refsAtT refsAtTV
+    refine List.mem_filterMap.mpr ⟨t, ht, ?_⟩
+    rw [hts, hv]
+    simp [idxOf?, hy]
+  · intro hv he
+    refine hmem _ ?_
+    unfold refsAtT refsAtTV
+    refine List.mem_filterMap.mpr ⟨t, ht, ?_⟩
+    rw [hts]
+    cases hview : t.view with
+    | list => exact absurd hview hv
+    | single => simp [he]
+    | index k => simp [he]
+
+/-- The skipped attribute matters: a relation that kept its links in `href` would make
+`find_references` incomplete (which is why `rowOk` demands another name). -/
+theorem findrefs_complete_needs_nohref :
+    ¬ ∀ (nodes : List Node) (rels : Nat → List Rel) (y : Nat),
+        (∀ i r tag xt follow, r ∈ rels i → r.kind = .child tag xt follow →
+          ∀ j ∈ childrenOf nodes i, ∀ l, aget (attrsAt nodes j) follow = some l → l ≠ [] → '#' ∈ l) →
+        findRefs nodes rels y = bruteRefs nodes rels y := by
+  intro h
+  have := h
+    [{ uid := "x".toList, tag := "e".toList, attrs := [("href".toList, "#y".toList)] },
+     { uid := "y".toList, tag := "e".toList }]
+    (fun i => if i = 0 then [⟨"target".toList, .attr "href".toList⟩] else [])
+    1
+    (by
+      intro i r tag xt follow hr hk
+      by_cases h0 : i = 0
+      · subst h0
+        simp only [if_true, List.mem_cons, List.not_mem_nil, or_false] at hr
+        subst hr
+        cases hk
+      · simp [h0] at hr)
+  revert this
+  decide
 
 -- Non-vacuity
 def exNodes : List Node :=
